@@ -19,8 +19,11 @@ def run(tier, seed):
     hc = hcommon.HandlerCheck(PROP, tier, seed)
     hc.gate(EXTRA_PROPS)
     n_success_checks = 0
+    syscases = []
     for case in hcommon.share(sysprops.c02_cases(tier, hc.rng)):
         case.run()
+        if len(syscases) < (300 if tier == "quick" else 3000):
+            syscases.append(case)
         fail = sysprops.check_c02(case)
         n_success_checks += len(case.success_checks)
         for kind, ops, obs in case.sides:
@@ -44,8 +47,9 @@ def run(tier, seed):
             if fail:
                 hc.world_violation(f"transaction {k + 1} of {len(case.txs)} on the same handlers: " + fail, case.describe(), case.sides)
                 break
+    n_sys = sysprops.system_correspondence(hc, syscases, "props/C02*.v (System.v = scheduler + both handler models)")
     hc.correspondence(project=hcommon.proj_all_external, theorem="props/C02.v (correspondence source+dest, all external observables)")
-    return hc.finish(RULES[PROP], {"success_reports_checked": n_success_checks})
+    return hc.finish(RULES[PROP], {"success_reports_checked": n_success_checks, "system_model_runs_compared": n_sys})
 
 
 def replay(path):
